@@ -4,6 +4,7 @@ package main
 import (
 	"bytes"
 	"fmt"
+	"io"
 	"reflect"
 	"regexp"
 	"sort"
@@ -268,10 +269,101 @@ func arenas() []*arena {
 		w.Flush()
 		return [][]byte{headOf(sc.Output()), append([]byte(nil), c.Response.Header.Trailer().Header()...)}
 	}})
+	// late calls: header-writing calls made after the head was handed to the connection
+	// but before it was flushed — from a handler using the chunked body writer without
+	// flushing, or from inside a body stream's Read.  Whether such a call still takes effect
+	// is not judged; the head on the wire must stay one well-formed head.
+	lateHead := func(out []byte) [][]byte {
+		h := headOf(out)
+		if !bytes.HasPrefix(h, []byte("HTTP/1.1 200 OK\r\n")) {
+			return [][]byte{[]byte(fmt.Sprintf("HTTP/1.1 200 OK\r\nX-Inj-Start-Line-Overwritten: %q\r\n\r\n", trunc(string(h), 60)))}
+		}
+		return [][]byte{h}
+	}
+	for _, pad := range []int{10, 5000} {
+		pad := pad
+		as = append(as, &arena{name: fmt.Sprintf("Response.Header(late, chunked writer, head>%d)", pad), typ: reflect.TypeOf(&protocol.ResponseHeader{}), run: func(ops func(reflect.Value)) [][]byte {
+			var rs protocol.Response
+			rs.Header.SetServerBytes(bytes.Repeat([]byte("s"), pad))
+			sc := sconn.New(nil, sconn.EOF)
+			w := standard.VerifNewConn(sc, 4096)
+			cw := resp.NewChunkedBodyWriter(&rs, w)
+			if _, err := cw.Write([]byte("hello")); err != nil {
+				return nil
+			}
+			ops(reflect.ValueOf(&rs.Header))
+			cw.Write([]byte("world"))
+			if f, ok := cw.(interface{ Finalize() error }); ok {
+				f.Finalize()
+			}
+			cw.Flush()
+			return lateHead(sc.Output())
+		}})
+		as = append(as, &arena{name: fmt.Sprintf("Response.Header(late, body stream Read, head>%d)", pad), typ: reflect.TypeOf(&protocol.ResponseHeader{}), run: func(ops func(reflect.Value)) [][]byte {
+			var rs protocol.Response
+			rs.Header.SetServerBytes(bytes.Repeat([]byte("s"), pad))
+			done := false
+			rs.SetBodyStream(readerFunc(func(p []byte) (int, error) {
+				if done {
+					return 0, io.EOF
+				}
+				done = true
+				ops(reflect.ValueOf(&rs.Header))
+				return copy(p, "streamed"), nil
+			}), -1)
+			sc := sconn.New(nil, sconn.EOF)
+			w := standard.VerifNewConn(sc, 4096)
+			if err := resp.Write(&rs, w); err != nil {
+				return nil
+			}
+			w.Flush()
+			return lateHead(sc.Output())
+		}})
+	}
+	for _, pad := range []int{10, 5000} {
+		pad := pad
+		as = append(as, &arena{name: fmt.Sprintf("Request.Header(late, body stream Read, head>%d)", pad), typ: reflect.TypeOf(&protocol.RequestHeader{}), run: func(ops func(reflect.Value)) [][]byte {
+			var rq protocol.Request
+			rq.SetRequestURI("http://h/p")
+			rq.Header.SetMethod("POST")
+			rq.Header.SetUserAgentBytes(bytes.Repeat([]byte("u"), pad))
+			done := false
+			rq.SetBodyStream(readerFunc(func(p []byte) (int, error) {
+				if done {
+					return 0, io.EOF
+				}
+				done = true
+				ops(reflect.ValueOf(&rq.Header))
+				return copy(p, "streamed"), nil
+			}), -1)
+			sc := sconn.New(nil, sconn.EOF)
+			w := standard.VerifNewConn(sc, 4096)
+			if err := req.Write(&rq, w); err != nil {
+				return nil
+			}
+			w.Flush()
+			h := headOf(sc.Output())
+			if !bytes.HasPrefix(h, []byte("POST /p HTTP/1.1\r\n")) {
+				return [][]byte{[]byte(fmt.Sprintf("POST /p HTTP/1.1\r\nX-Inj-Start-Line-Overwritten: %q\r\n\r\n", trunc(string(h), 60)))}
+			}
+			return [][]byte{h}
+		}})
+	}
 	for _, a := range as {
 		a.ents = entries(a.typ, a.helper)
 	}
 	return as
+}
+
+type readerFunc func(p []byte) (int, error)
+
+func (f readerFunc) Read(p []byte) (int, error) { return f(p) }
+
+func trunc(s string, n int) string {
+	if len(s) > n {
+		return s[:n]
+	}
+	return s
 }
 
 func headOf(b []byte) []byte {
